@@ -105,7 +105,10 @@ AttrModel(c) ==    \* c = [t1, t2, r1, r2, r3, c1, c2] indices into AttrPool
                 At([name |-> "big", module |-> "", file |-> "",
                     rels |-> [i \in 1..18 |-> LET nm == <<"owner", "guest", "commenter", "viewer", "editor", "approver", "auditor", "manager", "reader", "writer", "admin", "member", "notary", "counsel",
                                                           "owner2", "owner10", "Owner", "owner_">>[i]    \* (names that a sort by anything but the plain name misplaces)
-                                              IN At(PlainRel(nm, [k |-> "this"], <<Ty("alpha")>>), IF i > 12 THEN c.r2 ELSE IF i % 2 = 0 THEN c.r1 ELSE c.t2)]], c.t1) >>),
+                                              IN At(PlainRel(nm, [k |-> "this"], <<Ty("alpha")>>), IF i > 12 THEN c.r2 ELSE IF i % 2 = 0 THEN c.r1 ELSE c.t2)]
+                            \* ... and three relations without a direct assignment and without attribution: API clients write no metadata entry for such relations
+                            \o << PlainRel("zcomp", [k |-> "cu", rel |-> "owner"], <<>>), PlainRel("Acomp", [k |-> "cu", rel |-> "guest"], <<>>),
+                                  PlainRel("comp2", [k |-> "ttu", rel |-> "owner", ts |-> "member"], <<>>) >>], c.t1) >>),
    conds |-> << At([name |-> "k2", module |-> "", file |-> "", params |-> <<[name |-> "b", ty |-> "TYPE_NAME_STRING", elem |-> ""], [name |-> "a", ty |-> "TYPE_NAME_TIMESTAMP", elem |-> ""], [name |-> "userId", ty |-> "TYPE_NAME_STRING", elem |-> ""],
                                                                               [name |-> "Zone", ty |-> "TYPE_NAME_INT", elem |-> ""], [name |-> "userid", ty |-> "TYPE_NAME_BOOL", elem |-> ""], [name |-> "lim", ty |-> "TYPE_NAME_INT", elem |-> ""], [name |-> "lim2", ty |-> "TYPE_NAME_INT", elem |-> ""], [name |-> "lim10", ty |-> "TYPE_NAME_UINT", elem |-> ""], [name |-> "user_ip", ty |-> "TYPE_NAME_IPADDRESS", elem |-> ""]>>,
                     expr |-> "a > timestamp(b) &&\n    Zone % 3 < 2"], c.c1),
